@@ -7,7 +7,7 @@ from vlib.monitors import StatMonitor
 PROPERTY = 'C18'
 LEVEL = 'exploration'
 TECHNIQUE = 'runtime monitoring: conservation check of the REST statistic endpoint against the transport write log and the delivered stream (reference deframer) after every event'
-RULE = ('the C01 event alphabet (single-connection regime) plus REST sends (update, withdraw, route-refresh, bin_update), explored '
+RULE = ('the C01 event alphabet (single-connection regime) plus REST sends (update, withdraw, route-refresh, bin_update, and requests the agent refuses: route-refresh for families the peer did not advertise, unencodable update, update without attributes, bad hex), explored '
         'breadth-first with fingerprint de-duplication, plus random walks; after EVERY event the statistic endpoint is compared with '
         'a count of frames by type in the write log of the connection it reports on and in the stream delivered to it '
         '(frames >= the type minimum length); distinct = distinct abstract world fingerprints')
@@ -18,7 +18,7 @@ DEPTH = {'quick': (3, 6), 'thorough': (4, 8)}
 PARTS = {'quick': 12, 'thorough': 15}
 WALKS = {'quick': (80, 150), 'thorough': (2000, 400)}
 BUDGET = {'quick': 40, 'thorough': 700}
-REST = ('R_UPD', 'R_WD', 'R_RR', 'R_BIN')
+REST = ('R_UPD', 'R_WD', 'R_RR', 'R_BIN', 'R_RR6', 'R_RRVPN', 'R_UPDBAD', 'R_UPDNOATTR', 'R_BINBAD')
 ALPHA = S.ALPHABET_C01 + ['OPEN_nocap'] + S.ODD_LENGTH
 
 
